@@ -19,6 +19,7 @@ type verifSentinelWorld struct {
 	events   map[string]func(PubSubMessage) // per sentinel: the captured Pub/Sub callback
 	wrong    map[*verifStubConn]bool         // data connections that answered ROLE with a wrong/erroneous role last time
 	park     chan struct{}
+	replicas []string // what SENTINEL REPLICAS reports
 }
 
 func (w *verifSentinelWorld) connFn(addr string, _ *ClientOption) conn {
@@ -33,6 +34,12 @@ func (w *verifSentinelWorld) connFn(addr string, _ *ClientOption) conn {
 				case "GET-MASTER-ADDR-BY-NAME":
 					host, port := report[:len(report)-2], report[len(report)-1:]
 					rs[i] = NewResult(slicemsg(typeArray, []RedisMessage{strmsg(typeBlobString, host), strmsg(typeBlobString, port)}), nil)
+				case "REPLICAS":
+					var reps []RedisMessage
+					for _, r := range w.replicas {
+						reps = append(reps, slicemsg(typeArray, []RedisMessage{strmsg(typeBlobString, "ip"), strmsg(typeBlobString, r[:len(r)-2]), strmsg(typeBlobString, "port"), strmsg(typeBlobString, r[len(r)-1:])}))
+					}
+					rs[i] = NewResult(slicemsg(typeArray, reps), nil)
 				default:
 					rs[i] = NewResult(slicemsg(typeArray, nil), nil)
 				}
@@ -140,4 +147,50 @@ func VerifC23_sentinel() {
 		verifAssert(got == 1, "the command is sent exactly once")
 	}
 	verifReach("done")
+}
+
+// VerifC23_replicas: SendToReplicas configuration. The refresh switches the master and a
+// replica connection concurrently; afterwards the sentinel announces that the replica has been
+// promoted while the old master still answers ROLE as master (not yet demoted).
+func VerifC23_replicas() {
+	w := &verifSentinelWorld{role: map[string][]string{}, dialFail: map[string]bool{}, reports: map[string]string{}, conns: map[string]*verifStubConn{},
+		events: map[string]func(PubSubMessage){}, wrong: map[*verifStubConn]bool{}, park: make(chan struct{})}
+	w.reports["s1:1"] = "m1:1"
+	w.replicas = []string{"r1:1"}
+	w.role["m1:1"] = []string{"master"}
+	w.role["r1:1"] = []string{"slave", "master"} // promoted after the first ROLE
+	opt := &ClientOption{SendToReplicas: func(cmd Completed) bool { return cmd.IsReadOnly() }}
+	opt.Sentinel.MasterSet = "mymaster"
+	rOpt := *opt
+	rOpt.ReplicaOnly = true
+	c := &sentinelClient{cmd: cmds.NewBuilder(cmds.NoSlot), mOpt: opt, sOpt: newSentinelOpt(opt), rOpt: &rOpt, connFn: w.connFn,
+		sentinels: list.New(), retryHandler: newRetryer(defaultRetryDelayFn)}
+	c.sentinels.PushBack("s1:1")
+	err := c._refresh()
+	verifAssert(err == nil, "the refresh finds the master and a replica")
+	verifSettle()
+	mAddr, _ := c.mAddr.Load().(string)
+	verifAssert(mAddr == "m1:1" && c.mConn.Load().(*verifStubConn).addr == "m1:1", "primary traffic goes to the reported master")
+	verifAssert(c.rConn.Load().(*verifStubConn).addr == "r1:1", "replica traffic goes to the reported replica")
+	verifReach("refreshed")
+	fn := w.events[c.sAddr]
+	verifAssert(fn != nil, "subscribed to the sentinel")
+	fn(PubSubMessage{Channel: "+switch-master", Message: "mymaster 10.0.0.1 1 r1 1"})
+	mAddr, _ = c.mAddr.Load().(string)
+	mc := c.mConn.Load().(*verifStubConn)
+	verifAssert(mAddr == "r1:1", "primary traffic moves to the announced new master")
+	verifAssert(mc.addr == mAddr, "the published master connection belongs to the published master address")
+	r := c.Do(context.Background(), c.B().Set().Key("k").Value("v").Build())
+	_ = r
+	got := 0
+	for _, sc := range w.conns {
+		for _, l := range sc.log {
+			if l[0] == "SET" {
+				got++
+				verifAssert(sc.addr == "r1:1", "after the fail-over writes reach the new master only")
+			}
+		}
+	}
+	verifAssert(got == 1, "the command is sent exactly once")
+	verifReach("switched")
 }
